@@ -12,6 +12,10 @@ server code: the specification the block-wise client is judged against.
   `(num, _, szx)` is answered with the block at the same byte offset `num · 2^(szx+4)` in
   any size `szx' ≤ szx`, with the more flag set iff bytes remain, and with the ETag.
 
+* BERT (RFC 8323 §6) in requests is understood: a block option with exponent 7 counts its number in
+  1024-byte units and a non-final Block1 block carries a positive whole number of KiB. The
+  server's OWN exponents are 0..6 (it answers a BERT block asking for / using one of those).
+
 `reassemble` is the same Block1 rule as a function of the whole list of requests.
 `interact` closes the loop between the client machine and this server.
 -/
@@ -34,6 +38,12 @@ structure Srv where
 deriving Repr, DecidableEq
 
 def blockSize (szx : Nat) : Nat := 2 ^ (szx + 4)
+
+/-- the length a NON-final Block1 block of exponent `szx` must have: exactly one block, or (BERT)
+a positive whole number of KiB -/
+def BlkLen (szx n : Nat) : Prop := if szx = 7 then 0 < n ∧ n % 1024 = 0 else n = blockSize szx
+
+instance (szx n : Nat) : Decidable (BlkLen szx n) := by unfold BlkLen; infer_instance
 
 /-- 4.00 / 4.08 without options -/
 def plainResp (code : Nat) : Resp :=
@@ -65,13 +75,13 @@ def Srv.body (s : Srv) (req : Req) (c : Choice) : Srv × Resp :=
   match req.block1 with
   | none => s.respond req.payload none req.block2 c
   | some b1 =>
-    if b1.szx > 6 then (s, plainResp 128)
-    else if b1.more ∧ req.payload.length ≠ blockSize b1.szx then (s, plainResp 128)
+    if b1.szx > 7 then (s, plainResp 128)
+    else if b1.more ∧ ¬ BlkLen b1.szx req.payload.length then (s, plainResp 128)
     else
       let buf := if b1.num = 0 then [] else s.buf
-      if b1.num * blockSize b1.szx ≠ buf.length then ({ s with buf := [] }, plainResp 136)
+      if b1.num * b1.size ≠ buf.length then ({ s with buf := [] }, plainResp 136)
       else
-        let ack : BlockOpt := { num := b1.num, more := b1.more, szx := min c.szx b1.szx }
+        let ack : BlockOpt := { num := b1.num, more := b1.more, szx := min c.szx (min b1.szx 6) }
         if b1.more then
           ({ s with buf := buf ++ req.payload },
            { code := codeContinue, block1 := some ack, block2 := none, etag := none, payload := [] })
@@ -83,15 +93,16 @@ def Srv.handle (s : Srv) (req : Req) (c : Choice) : Srv × Resp :=
   | some b2 =>
     if b2.num ≠ 0 then
       -- continuation of a Block2 download
-      if b2.szx > 6 then (s, plainResp 128) else
-      let off := b2.num * blockSize b2.szx
+      if b2.szx > 7 then (s, plainResp 128) else
+      let off := b2.num * b2.size
       if off ≥ s.rep.length then (s, plainResp 128)
-      else (s, sliceResp s off (min c.szx b2.szx) none)
+      else (s, sliceResp s off (min c.szx (min b2.szx 6)) none)
     else s.body req c
   | none => s.body req c
 
 /-- Block1 reassembly of a whole request sequence by offset: `none` as soon as a block does not
-start where the body received so far ends, or a non-final block is not exactly one block long. -/
+start where the body received so far ends (at `num · 2^(szx+4)`, BERT: `num · 1024`), or a
+non-final block is not exactly one block (BERT: a positive whole number of KiB) long. -/
 def reassemble (reqs : List Req) : Option Bytes := goR [] reqs
 where
   goR (acc : Bytes) : List Req → Option Bytes
@@ -100,9 +111,9 @@ where
       match r.block1 with
       | none => if acc.isEmpty ∧ rs.isEmpty then some r.payload else none
       | some b =>
-        if b.szx > 6 then none
-        else if b.num * blockSize b.szx ≠ acc.length then none
-        else if b.more ∧ r.payload.length ≠ blockSize b.szx then none
+        if b.szx > 7 then none
+        else if b.num * b.size ≠ acc.length then none
+        else if b.more ∧ ¬ BlkLen b.szx r.payload.length then none
         else goR (acc ++ r.payload) rs
 
 /-- a finished or interrupted transfer as seen from outside -/
